@@ -60,6 +60,13 @@ fn attempt(c: &LocCase, main_source: &str) -> Result<Option<(Vec<Loc>, Option<St
         env.set_debug(c.debug);
         env.set_undefined_behavior(crate::props::c01::behavior(c.undefined));
         env.set_fuel(Some(50_000));
+        // a function of the unpadded case: small limits make recursion fail at instructions other
+        // than the include itself
+        match c.source.len() % 5 {
+            0 => env.set_recursion_limit(12),
+            1 => env.set_recursion_limit(27),
+            _ => {}
+        }
         for (n, s) in &c.companions {
             let _ = env.add_template_owned(n.clone(), s.clone());
         }
@@ -85,8 +92,32 @@ fn attempt(c: &LocCase, main_source: &str) -> Result<Option<(Vec<Loc>, Option<St
             }
             s = x.source();
         }
+        // ... and into a writer that fails part-way every form must return the error
+        for budget in [0usize, 1, 7, 60, 300] {
+            use std::fmt::Write as _;
+            let _ = write!(Limited(budget), "{err}");
+            let _ = write!(Limited(budget), "{err:#}");
+            let _ = write!(Limited(budget), "{err:?}");
+            let _ = write!(Limited(budget), "{err:#?}");
+            let _ = write!(Limited(budget), "{}", err.display_debug_info());
+        }
         Some((chain(&err), err.template_source().map(|s| s.to_string())))
     })
+}
+
+/// a `fmt::Write` that accepts a limited number of bytes and then fails
+struct Limited(usize);
+
+impl std::fmt::Write for Limited {
+    fn write_str(&mut self, s: &str) -> std::fmt::Result {
+        if s.len() > self.0 {
+            self.0 = 0;
+            Err(std::fmt::Error)
+        } else {
+            self.0 -= s.len();
+            Ok(())
+        }
+    }
 }
 
 fn nlines(s: &str) -> usize {
@@ -133,6 +164,9 @@ fn pieces() -> BoxedStrategy<String> {
         "{% from 'c.txt' import m1 %}{{ m1('x') }}",
         "{% import 'c.txt' as mod %}{{ mod.nothere() }}",
         "{% do nosuch() %}",
+        "{% import 'selfimp.txt' as si %}",
+        "{% from 'selffrom.txt' import q %}",
+        "{% include 'selfinc.txt' %}",
         "{{ super() }}",
         "{{ range(10 ** 8) }}",
         "{{ loop.index }}",
@@ -204,6 +238,10 @@ fn companions() -> Vec<(String, String)> {
         ),
         ("c.txt".into(), "line one\n{% macro m1(n) %}\n{% for q in range(n) %}m{% endfor %}{% endmacro %}\n<c>".into()),
         ("bad.txt".into(), "first\nsecond {{ 1 // 0 }}\nthird".into()),
+        // recursion through templates whose very first instruction is the import / include
+        ("selfimp.txt".into(), "{% import 'selfimp.txt' as m %}x".into()),
+        ("selffrom.txt".into(), "{% from 'selffrom.txt' import q %}\nx".into()),
+        ("selfinc.txt".into(), "{% include 'selfinc.txt' %}".into()),
     ]
 }
 
@@ -304,6 +342,9 @@ impl Part for Located {
             }
         };
         check_locs(&locs, &c.source, "baseline", &mut v);
+        if locs[0].name.is_none() {
+            v.set_fail("error_without_template_name", format!("the returned error {:?} names no template\nsource: {:?}", locs[0], c.source));
+        }
         if let Some(ts) = &tsrc {
             // the outermost error's template_source is the source of the template it names
             if let Some(name) = &locs[0].name {
@@ -552,7 +593,7 @@ impl Part for Planted {
 crate::declare_parts!(Located, Planted);
 
 pub fn run(ctx: &mut Ctx) {
-    ctx.rule = "failing templates: structured multi-line programs (macros, call blocks, blocks, inheritance, includes of failing templates, imports, loops, captures) with failing pieces, their character-level mutations (delete / insert delimiter, quote, multi-byte character, newline / truncate anywhere) and mutated free-mode templates, with CRLF and multi-byte text; for every error of the cause chain that names a template: 1 <= line <= lines of that source, range is a valid slice (in bounds, char boundaries, start <= end) lying on the reported line, template_source() is that source; metamorphic: N in {1,2,7,255,60000,65530,65534} lines of text above shift line by exactly N and the range by the pad length, M in {1,3,200,65530,70000} characters in front move only the range, kind/detail/name unchanged; all Display/Debug/display_debug_info forms complete without panic, debug on and off. planted: a division by zero planted in every construct (29 expression holes x 4 surroundings and 12 failing statements x 5 surroundings, each x 5 x 3 offsets, enumerated) must be reported on its own line. Non-trivial: error not at line 1 offset 0 and (padding or multi-byte text or a cause chain). Distinct by case.".into();
+    ctx.rule = "failing templates: structured multi-line programs (macros, call blocks, blocks, inheritance, includes of failing templates, imports, loops, captures) with failing pieces, their character-level mutations (delete / insert delimiter, quote, multi-byte character, newline / truncate anywhere) and mutated free-mode templates, with CRLF and multi-byte text; for every error of the cause chain that names a template: 1 <= line <= lines of that source, range is a valid slice (in bounds, char boundaries, start <= end) lying on the reported line, template_source() is that source; metamorphic: N in {1,2,7,255,60000,65530,65534} lines of text above shift line by exactly N and the range by the pad length, M in {1,3,200,65530,70000} characters in front move only the range, kind/detail/name unchanged; all Display/Debug/display_debug_info forms complete without panic, debug on and off, also when written into a writer that fails after 0/1/7/60/300 bytes; the returned error names a template. planted: a division by zero planted in every construct (29 expression holes x 4 surroundings and 12 failing statements x 5 surroundings, each x 5 x 3 offsets, enumerated) must be reported on its own line. Non-trivial: error not at line 1 offset 0 and (padding or multi-byte text or a cause chain). Distinct by case.".into();
     ctx.assumptions = vec!["lines are counted as split('\\n') so that an error after a trailing newline is inside the source".into()];
     preamble(ctx);
     let t = ctx.tier;
